@@ -5,7 +5,7 @@ RULE = ('after EVERY real main_loop iteration of either endpoint the model SAD b
         'set of (daddr, proto, SPI) of the CHILD_SAs of the IKE_SAs in the table (+ a not yet registered successor); no un-injected '
         'kernel refusal (EEXIST/ESRCH) may occur; an IKE_SA rekey step emits no NEWSA/DELSA. Workload: scripted base histories '
         '(initial, child create/rekey/delete from both sides, IKE rekey, delete, collisions, refused negotiations, INVALID_KE retries, '
-        'timeouts) x a kernel error injected at EACH netlink request index of EACH history on EACH endpoint (fault enumeration), plus '
+        'timeouts, 6in4 / 4in6 / wide-subnet tunnels, an authentic request of the peer arriving from another source address, both ends drawing equal SPI values) x a kernel error injected at EACH netlink request index of EACH history on EACH endpoint (fault enumeration), plus '
         'lossless/lossy random walks. distinct = distinct (history, endpoint, fault index, errno) or walk action sequences.')
 ASSUMPTIONS = ['fake kernel: NEWSA of an existing (daddr,proto,spi) => EEXIST, DELSA of an absent one => ESRCH, like Linux',
                'an injected refusal is not applied to the model (the kernel did nothing)',
@@ -35,6 +35,13 @@ HISTORIES = {
     'tunnel-6in4': (dict(mode='tunnel', a_subnet='fd00:a::/64', b_subnet='fd00:b::/64'), [T('B', 'expire_soft'), D, T('A', 'acquire'), D, T('A', 'expire_hard'), D, T('B', 'rekey_ike'), D, T('B', 'delete_ike'), D]),
     'tunnel-4in6': (dict(v6=True, mode='tunnel', a_subnet='10.1.0.0/24', b_subnet='10.2.0.0/16', ipsec_proto='ah'), [T('A', 'expire_soft'), D, T('B', 'expire_hard'), D, T('A', 'delete_ike'), D]),
     'tunnel-wide-subnets': (dict(mode='tunnel', a_subnet='10.1.0.0/16', b_subnet='10.2.0.0/24'), [T('A', 'acquire'), D, T('B', 'expire_soft'), D, T('A', 'expire_hard'), D]),
+    # the peer's authentic request arrives from another source address (NAT rebinding, multi-homed peer); the reply goes there and is lost, the retransmission comes from the usual address
+    'peer-request-from-another-address': ({}, [T('A', 'dpd'), ('deliver-from', 0, '203.0.113.7'), ('ticks', 3, 2.1), D, T('A', 'expire_soft'), ('deliver-from', 0, '203.0.113.9'), ('ticks', 3, 2.1), D,
+                                               T('B', 'expire_hard'), D, T('A', 'rekey_ike'), D, T('B', 'delete_ike'), D]),
+    'peer-request-from-another-address-v6': (dict(v6=True, ipsec_proto='ah'), [T('B', 'dpd'), ('deliver-from', 0, '2001:db8:77::7'), ('ticks', 3, 2.1), D, T('B', 'acquire'), D, T('A', 'delete_ike'), D]),
+    # both ends happen to choose the same SPI values (the inbound SPI is ours, the outbound one the peer's: equal values are legal, the kernel names an SA by destination, protocol and SPI)
+    'equal-spi-values': (dict(equal_spis=True), [T('A', 'acquire'), D, T('B', 'expire_soft'), D, T('A', 'expire_hard'), D, T('B', 'rekey_ike'), D, T('A', 'expire_soft'), D, T('B', 'delete_ike'), D]),
+    'equal-spi-values-tunnel': (dict(equal_spis=True, mode='tunnel', a_subnet='10.1.0.0/24', b_subnet='10.2.0.0/24'), [T('B', 'acquire'), D, T('B', 'expire_hard'), D, T('A', 'delete_ike'), D]),
     'new-child-A': ({}, [T('A', 'acquire'), D]),
     'new-child-B': ({}, [T('B', 'acquire'), D]),
     'rekey-child-A': ({}, [T('A', 'expire_soft'), D]),
@@ -63,9 +70,37 @@ HISTORIES = {
 }
 
 
+class _EqualSpis:
+    """Stands in for `os` inside ikesa: the k-th 4-octet random value drawn by ANY endpoint is the same constant, so the two SPIs of a CHILD_SA are equal."""
+
+    def __init__(self, real):
+        self.real, self.k = real, {}
+
+    def __getattr__(self, n):
+        return getattr(self.real, n)
+
+    def urandom(self, n):
+        if n != 4:
+            return self.real.urandom(n)
+        who = getattr(S.W.cur, 'name', '?')
+        self.k[who] = self.k.get(who, 0) + 1
+        return bytes([0x11, 0x22, 0x33, self.k[who] & 0xFF])
+
+
 def run_history(name, seed, mons, fault=None):
     conf, script = HISTORIES[name]
     kw = dict(conf)
+    if kw.pop('equal_spis', False):
+        real = S.r_ikesa.os
+        S.r_ikesa.os = _EqualSpis(real)
+        try:
+            return _run_history(name, seed, mons, fault, kw, script)
+        finally:
+            S.r_ikesa.os = real
+    return _run_history(name, seed, mons, fault, kw, script)
+
+
+def _run_history(name, seed, mons, fault, kw, script):
     sc = walk.Scenario(seed, mons, kw, handshake=False)
     sc.sim.case.update({'history': name, 'fault': fault})
     if fault is not None:
@@ -81,6 +116,11 @@ def run_history(name, seed, mons, fault=None):
         elif act[0] == 'deliver':
             if sc.sim.net:
                 sc.deliver(min(act[1], len(sc.sim.net) - 1))
+        elif act[0] == 'deliver-from':
+            if sc.sim.net:
+                d = sc.sim.net.pop(min(act[1], len(sc.sim.net) - 1))
+                sc.sim.case['actions'].append(('deliver-from', act[2]))
+                sc.sim.inject(sc.sim.addr2ep[d.dst], act[2], d.dst, d.data)
         elif act[0] == 'dropall':
             sc.sim.net.clear()
         elif act[0] == 'ticks':
@@ -89,6 +129,7 @@ def run_history(name, seed, mons, fault=None):
                 if act == ('ticks', 14, 2.1):
                     sc.sim.net.clear()      # partition: nothing gets through until the budget is spent
     sc.settle()
+    sc.equal_spi_children = sum(1 for r in sc.a.kernel.requests + sc.b.kernel.requests if r['msg'] and r['msg']['name'] == 'NEWSA' and r['msg']['sa']['id']['spi'][:3] == b'\x11\x22\x33')
     return sc
 
 
@@ -107,6 +148,7 @@ def run(ck):
             sc = run_history(name, base + hi, mons)
             counts = {e: len(sc.ep(e).kernel.requests) - len(sc.ep(e).boot_nl) for e in 'AB'}
             if ck.mine(n):
+                ck.count('histories.sas_installed_with_equal_spi_values', sc.equal_spi_children)
                 ck.nontrivial(('clean', name))
                 ck.count('histories.clean')
                 ck.seen('histories', name)
@@ -162,6 +204,7 @@ def verdict(ck):
     ck.floor('steps compared', ck.counters['sad.steps_checked'], 20000)
     ck.floor('non-empty equal comparisons', ck.counters['sad.equal_nonempty'], 10000)
     ck.floor('faults injected', ck.counters['faults.injected'], 150)
+    ck.floor('kernel SAs installed in histories where both ends draw equal SPI values', ck.counters['histories.sas_installed_with_equal_spi_values'], 12)
     for op in ('NEWSA', 'DELSA'):
         for e in 'AB':
             ck.floor(f'fault on {op} at {e}', int((op, e) in ck.sets['fault.op_x_endpoint']), 1)
